@@ -119,6 +119,12 @@ class C05(Check):
             bros = [blk(19) for _ in range(nb)]
             for rot in range(0, nb, 2 if nb > 5 else 1):
                 add("adv-rot", True, [blk(20)], [bros[rot:] + bros[:rot]], bound=1)
+        # long lists (the firmware takes any number of blocks; clients send dozens): 9, 12, 17 and
+        # (thorough) 33, 130 blocks, the last ones with brothers; default device answers
+        for nb in ((9, 12, 17) if not self.thorough else (9, 12, 17, 33, 130)):
+            bl = [blk(19 + (i % 2)) for i in range(nb)]
+            add("adv-many", True, bl, [[] for _ in range(nb - 2)] + [[blk(19)], [blk(19), blk(19)]], bound=0)
+            add("upd-many", False, bl, bound=0)
         # ancestor update: 17..20 fields
         for nblocks in (1, 2, 3):
             for nfs in itertools.product((17, 18, 19, 20), repeat=nblocks):
